@@ -68,6 +68,8 @@ def _closed(draw):
             "reuse_psi": draw(st.booleans()),
             # the conversion back to the laboratory frame is made while other energy units are current
             "convert_units": draw(st.sampled_from([None, None, "1/cm", "eV", "THz"])),
+            # the caller propagates while other energy units are current
+            "prop_units": draw(st.sampled_from([None, None, None, "1/cm", "eV", "THz"])),
             # start of the time axis in units of the step
             "k0": draw(st.sampled_from([0, 0, 0, 3, -2, 10]))}
 
@@ -99,7 +101,8 @@ def _lindblad(draw):
             "form": draw(st.sampled_from(["op", "tensor", "converted"])),
             "A": draw(gens.density_matrix_spec(dim)),
             "order": draw(st.sampled_from([2, 4, 6])), "nref": draw(st.sampled_from([1, 2, 5])),
-            "x": draw(st.sampled_from(XT)), "nt": draw(st.integers(5, 60))}
+            "x": draw(st.sampled_from(XT)), "nt": draw(st.integers(5, 60)),
+            "prop_units": draw(st.sampled_from([None, None, None, "1/cm", "eV", "THz"]))}
 
 
 @st.composite
@@ -119,7 +122,22 @@ def _redfield(draw):
     secular = False if (td and as_ops) else draw(st.booleans())
     return {"kind": "redfield", "spec": spec, "td": td, "as_ops": as_ops,
             "secular": secular, "pdeph": pd, "A": draw(gens.density_matrix_spec(n + 1)),
-            "order": draw(st.sampled_from([2, 4, 6])), "nref": draw(st.sampled_from([1, 2]))}
+            "order": draw(st.sampled_from([2, 4, 6])), "nref": draw(st.sampled_from([1, 2])),
+            "prop_units": draw(st.sampled_from([None, None, None, "1/cm", "eV", "THz"]))}
+
+
+def _caller_units(qr, case, ctx):
+    """calls made the way the case's caller makes them: while other energy units are current, or not"""
+    units = case.get("prop_units")
+    if units:
+        ctx.label("propagated-in-units:" + units)
+
+    def call(fn):
+        if units:
+            with qr.energy_units(units):
+                return fn()
+        return fn()
+    return call
 
 
 def strategy(tier):
@@ -203,9 +221,9 @@ def _check_closed(case, ctx, rho0, coh):
                 pass
         if inctx:
             with qr.eigenbasis_of(ham):
-                rt = prop.propagate(rhoi, method="short-exp-%d" % order, Nref=nref)
+                rt = cu(lambda: prop.propagate(rhoi, method="short-exp-%d" % order, Nref=nref))
         else:
-            rt = prop.propagate(rhoi, method="short-exp-%d" % order, Nref=nref)
+            rt = cu(lambda: prop.propagate(rhoi, method="short-exp-%d" % order, Nref=nref))
         if rwa is not None:
             if case.get("convert_units"):
                 with qr.energy_units(case["convert_units"]):
@@ -213,6 +231,7 @@ def _check_closed(case, ctx, rho0, coh):
             else:
                 rt.convert_from_RWA(ham)
         return ham, numpy.array(rt.data)
+    cu = _caller_units(qr, case, ctx)
     ok, r = guarded(ctx, "closed/propagate", run, tag)
     if not ok:
         return
@@ -261,7 +280,7 @@ def _check_closed(case, ctx, rho0, coh):
         sp = StateVectorPropagator(ta, ham2)
         sp.setDtRefinement(nref)
         psi_obj = qr.StateVector(data=psi0.copy())
-        pe = sp.propagate(psi_obj, L=order)
+        pe = cu(lambda: sp.propagate(psi_obj, L=order))
         dme = None
         if rwa is None:
             if case.get("reuse_psi"):
@@ -356,8 +375,9 @@ def _check_lindblad(case, ctx, rho0, coh):
             prop = ReducedDensityMatrixPropagator(ta, ham, lf, PDeph=PureDephasing(drates=gam.copy(), dtype=pd["dtype"]))
         else:
             prop = ReducedDensityMatrixPropagator(ta, ham, lf)
-        rt = prop.propagate(ReducedDensityMatrix(data=rho0.copy()), method="short-exp-%d" % order, Nref=nref)
+        rt = cu(lambda: prop.propagate(ReducedDensityMatrix(data=rho0.copy()), method="short-exp-%d" % order, Nref=nref))
         return numpy.array(rt.data)
+    cu = _caller_units(qr, case, ctx)
     ok, data = guarded(ctx, "lindblad/propagate", run, tag)
     if not ok:
         return
@@ -411,9 +431,10 @@ def _check_redfield(case, ctx, rho0, coh):
         else:
             tp = ta
         prop = ReducedDensityMatrixPropagator(tp, ham, RT, **kw)
-        rt = prop.propagate(ReducedDensityMatrix(data=rho0.copy()), method="short-exp-%d" % case["order"],
-                            Nref=nref)
+        rt = cu(lambda: prop.propagate(ReducedDensityMatrix(data=rho0.copy()), method="short-exp-%d" % case["order"],
+                                       Nref=nref))
         return numpy.array(rt.data)
+    cu = _caller_units(qr, case, ctx)
     ok, data = guarded(ctx, "redfield/propagate", run, tag)
     if not ok:
         return
